@@ -124,14 +124,15 @@ class C07:
     def keys(self, ctx):
         rng = ctx.rng
         ks = [0, 1, 7, 8, 15, 16, 23, 24, 31, 32, 52, 53, 54, 62, 63, 64, 65] if not ctx.thorough else list(range(0, 70)) + [100, 127, 128, 1022, 1023]
-        ks_extra = rng.sample(range(2, 1024), 6) + [1023]
+        ks_extra = rng.sample(range(2, 1024), 6) + [1023, 1024]
         keys = number_keys(rng, ks) + number_keys(rng, ks_extra, ds=(0, 1), rich=False) + SPECIAL_KEYS
         keys = list(dict.fromkeys(keys))
         cap = ctx.scale(420, 1600)
         if len(keys) > cap:
             # always kept: the special keys and every representation of the small integers -3..3 and of +-2^63, +-2^64
             # (zero against negative zero, one against True, the int64 / uint64 edges)
-            core = list(dict.fromkeys(SPECIAL_KEYS + number_keys(rng, [0, 1]) + number_keys(rng, [63, 64], ds=(-1, 0, 1))))
+            core = list(dict.fromkeys(SPECIAL_KEYS + number_keys(rng, [0, 1]) + number_keys(rng, [63, 64], ds=(-1, 0, 1))
+                                      + number_keys(rng, [1023, 1024], ds=(0, 1), rich=False) + number_keys(rng, [127, 128], ds=(0,))))
             keep = set(core)
             rest = [k for k in keys if k not in keep]
             rng.shuffle(rest)
